@@ -90,6 +90,26 @@ def r_guard(A, ctx, scope, rule="R-GUARD"):
                     m[tv] = vv.id
             if m:
                 sites.append((nd, m))
+        # an acceptance written as a rebinding of the iterate names (`w, Xw = w_acc, Xw_acc`) is no
+        # bulk store at all: the caller's arrays are not updated (also reported by R-ALIAS)
+        for nd in cfg.stmts():
+            a = nd.ast
+            if nd.kind != "stmt" or not isinstance(a, ast.Assign) or len(a.targets) != 1 or not nd.loops:
+                continue
+            t, v = a.targets[0], a.value
+            tps = list(zip(t.elts, v.elts)) if isinstance(t, ast.Tuple) and isinstance(v, ast.Tuple) \
+                and len(t.elts) == len(v.elts) else [(t, v)]
+            reb = [(tt.id, vv.id) for tt, vv in tps if isinstance(tt, ast.Name) and isinstance(vv, ast.Name)
+                   and tt.id in state and vv.id != tt.id]
+            guarded = any(isinstance(tst, ast.Compare) and isinstance(tst.ops[0], (ast.Lt, ast.Gt)) and lab == "true"
+                          for tst, lab, _ in cfg.facts_at(nd.id))
+            if reb and guarded:
+                n += 1
+                ctx.ob(rule, f"{f.fq}::accept::{norm_src(a)}", False,
+                       what=f"`{norm_src(a)}` accepts the extrapolated point by rebinding the names "
+                            f"{[x for x, _ in reb]} instead of copying into the arrays: the arrays handed "
+                            "in by the caller (warm start, path buffer) keep the rejected iterate",
+                       loc=loc(f, a))
         # group sites that share the same innermost guard
         groups = {}
         for nd, m in sites:
